@@ -91,3 +91,22 @@ Proof.
   - apply wf_mk_heap.
   - vm_compute. repeat split.
 Qed.
+
+(* the premises of mutation_during_iteration_fails hold for a fresh call on
+   unlocked collections, and the instrumented run really meets mutations: here
+   the append in the loop body is attempted with one live iterator and refused *)
+Example live_premises :
+  let h := mk_heap [(false, [1; 2; 3])] in
+  let p := PAct (SIterPush (Some 0%nat)) (PAct SIterJmp
+             (PBuiltin (HMutate 0 (MAppend 9) (HExit ORet)) (PExit ORet))) in
+  consistent h ([] ++ []) /\ bounded_live p (length (@nil (option cid) ++ [])) /\
+  (let '(h', _, _, o) := run_prog true p h [] 1 in o = OErr /\ content (h' 0%nat) = [1; 2; 3]) /\
+  (* with the guard on itercount removed the same run would be a violation *)
+  viol (mk_heap [(false, [1; 2; 3])]) 0%nat [Some 0%nat] = 1%nat.
+Proof.
+  split; [|split; [|split]].
+  - intros c F. unfold ic, mk_heap. destruct (nth_error _ c) as [[fz l]|]; reflexivity.
+  - unfold bounded_live. cbn. reflexivity.
+  - vm_compute. split; reflexivity.
+  - vm_compute. reflexivity.
+Qed.
